@@ -172,7 +172,7 @@ def ensure_monitor(flavour, name):
     srcs = [os.path.join(ROOT, "harness", name + ".cpp")] + [os.path.join(ROOT, "oracle", s) for s in ORACLE_SRC]
     deps = srcs + glob.glob(os.path.join(ROOT, "harness", "*.h")) + glob.glob(os.path.join(ROOT, "oracle", "*.h")) + \
         glob.glob(os.path.join(ROOT, "oracle", "*.inc"))
-    h = sha_files(deps, flavour)
+    h = sha_files(deps, flavour + "oracle-O2")
     mdir = os.path.join(d, "mon")
     exe = os.path.join(mdir, "%s-%s" % (name, h))
     with Locked(flavour + "-mon-" + name):
@@ -189,7 +189,10 @@ def ensure_monitor(flavour, name):
         for s in srcs:
             o = os.path.join(odir, os.path.basename(s)[:-4] + ".o")
             objs.append(o)
-            cmd = [CXX] + COMMON + FLAVOURS[flavour] + ["-I", os.path.join(REPO, "engine"), "-I", os.path.join(d, "cfg"),
+            flags = FLAVOURS[flavour]
+            if os.path.dirname(s).endswith("oracle") and flavour in ("asan", "vg"):
+                flags = ["-O2", "-g"]  # the trusted base itself is not the code under test; keep it fast
+            cmd = [CXX] + COMMON + flags + ["-I", os.path.join(REPO, "engine"), "-I", os.path.join(d, "cfg"),
                                                          "-I", os.path.join(ROOT, "oracle"), "-I",
                                                          os.path.join(ROOT, "harness"), "-c", s, "-o", o]
             jobs.append((cmd, s))
@@ -228,7 +231,7 @@ def ensure_selftest():
 
 # ----------------------------------------------------------------------------- running workers
 
-ASAN_OPTS = "halt_on_error=1:abort_on_error=1:detect_leaks=0:handle_abort=0:allocator_may_return_null=1"
+ASAN_OPTS = "halt_on_error=1:abort_on_error=1:detect_leaks=0:handle_abort=0:allocator_may_return_null=1:detect_container_overflow=0"
 UBSAN_OPTS = "print_stacktrace=1:halt_on_error=0"
 
 
